@@ -48,8 +48,8 @@ fields(
     _last_sequence_header_bytes="ref:list:int",
     _level_constrained_values="ref:opaque:OrderedDict",
     # offsets recorded for error messages are (byte, bit) tuples: only their presence matters
-    _last_picture_number_offset="ref:opaque:offset",
-    _picture_initial_fragment_offset="ref:opaque:offset",
+    _last_picture_number_offset="any",
+    _picture_initial_fragment_offset="any",
     # ghost fields of the Matcher model
     m_generic="bool",
     m_level="bool",
